@@ -162,6 +162,8 @@ class PreconditionsParser:
 
             else:
                 self.logger.error(f"Unknown precondition node: {precondition_node}")
-                return None
+                raise SyntaxError(
+                    f"Unsupported or unknown precondition node: {precondition_node}"
+                )
 
         return precondition_root
